@@ -1,0 +1,9 @@
+//go:build !verif
+
+// Package verifhook provides named schedule/crash points used by the external
+// verification harness. Without the "verif" build tag every point is a no-op
+// that the compiler inlines away.
+package verifhook
+
+// Point does nothing in normal builds.
+func Point(name string) {}
